@@ -156,6 +156,43 @@ func dischargeAll(x *Exec, obls []*Obligation, timeout time.Duration, all bool) 
 			results[i] = SolveResult{Status: "unsat", Solver: "syntactic"}
 			continue
 		}
+		// conjuncts of the goal that are literally among the assumptions need no solver
+		if ob.Goal.Op == "and" && !ob.Canary && !ob.Cover {
+			have := map[string]bool{}
+			var addA func(t *Term)
+			addA = func(t *Term) {
+				if t.Op == "and" {
+					for _, a := range t.Args {
+						addA(a)
+					}
+					return
+				}
+				have[t.canonString()] = true
+			}
+			for _, a := range ob.Assume {
+				addA(a)
+			}
+			var rest []*Term
+			for _, g := range ob.Goal.Args {
+				if !have[g.canonString()] {
+					rest = append(rest, g)
+				}
+			}
+			if len(rest) == 0 {
+				results[i] = SolveResult{Status: "unsat", Solver: "syntactic"}
+				continue
+			}
+			if os.Getenv("GOVC_DEBUG_SYN") != "" {
+				for _, r := range rest {
+					fmt.Fprintf(os.Stderr, "syn-rest %s: %.300s\n", ob.Name, r.canonString())
+				}
+			}
+			if len(rest) < len(ob.Goal.Args) {
+				cp := *ob
+				cp.Goal = And(rest...)
+				ob = &cp
+			}
+		}
 		q := buildQuery(ob)
 		fuel := x.specFuel
 		if fuel == 0 {
